@@ -291,6 +291,82 @@ func checkC02(p *core.Program, r *core.Report) {
 	}
 	r.Count("persisted_fields", nFields)
 	_ = fmt.Sprint
+
+	// ---- R6 what the reader may leave unset, the writer tolerates
+	r.Rule("R6", "reader and writer agree on what may be absent: a pointer field that the read side stores only under a presence test is dereferenced by the marshal side only under a nil test (otherwise a restored object cannot be persisted again)")
+	{
+		condStore := map[*types.Var]string{}
+		uncondStore := map[*types.Var]bool{}
+		for _, fn := range readList {
+			core.EachInstr(fn, false, func(_ *ssa.Function, in ssa.Instruction) {
+				st, ok := in.(*ssa.Store)
+				if !ok {
+					return
+				}
+				n, fv := fieldOwner(st.Addr)
+				if n == nil || fv == nil {
+					return
+				}
+				if _, isPtr := fv.Type().Underlying().(*types.Pointer); !isPtr {
+					return
+				}
+				presence := ""
+				for _, ce := range core.ControllingConds(st.Block()) {
+					bo, ok := ce.Cond.(*ssa.BinOp)
+					if !ok || (bo.Op != token.EQL && bo.Op != token.NEQ) {
+						continue
+					}
+					// error checks do not count: a failed read returns no object at all
+					isErr := func(v ssa.Value) bool { return core.ShortType(v.Type()) == "error" }
+					if isErr(bo.X) || isErr(bo.Y) {
+						continue
+					}
+					presence = canonShort(bo) + " at " + p.Pos(ce.If.Pos())
+				}
+				if presence != "" {
+					condStore[fv] = presence
+				} else {
+					uncondStore[fv] = true
+				}
+			})
+		}
+		nR6 := 0
+		for _, k := range keys {
+			t := typesByName[k]
+			for _, f := range t.fields {
+				why, conditional := condStore[f]
+				if !conditional || uncondStore[f] {
+					continue
+				}
+				for _, m := range t.marshal {
+					core.EachInstr(m, false, func(_ *ssa.Function, in ssa.Instruction) {
+						ci, ok := in.(ssa.CallInstruction)
+						if !ok {
+							return
+						}
+						com := ci.Common()
+						var recv ssa.Value
+						if com.IsInvoke() {
+							recv = com.Value
+						} else if g := com.StaticCallee(); g != nil && g.Signature.Recv() != nil && len(com.Args) > 0 {
+							recv = com.Args[0]
+						}
+						ld, ok := recv.(*ssa.UnOp)
+						if !ok || core.FieldAddrVar(ld.X) != f {
+							return
+						}
+						if g := com.StaticCallee(); g != nil && c02NilSafeMethod(g) {
+							return // the method itself starts with `if recv == nil`
+						}
+						nR6++
+						r.Check(xNilGuard(in.Block(), recv) != "", "R6", k+"."+f.Name()+"/writer-tolerates-absent", p.Pos(in.Pos()), "dereferenced under a nil test",
+							fmt.Sprintf("the read side sets %s.%s only under %s, but %s calls a method on it without a nil test: marshalling an object that was read back without that member panics (marshal -> read -> marshal is not even defined)", k, f.Name(), why, core.FuncName(m)))
+					})
+				}
+			}
+		}
+		r.Count("conditionally_restored_pointer_derefs", nR6)
+	}
 	c02R2R3(p, r, fns, pkgSet, readFns)
 }
 
@@ -599,4 +675,36 @@ func c02FieldOwner(v ssa.Value) (*types.Named, *types.Var) {
 		return nil, nil
 	}
 	return n, core.FieldAddrVar(fa)
+}
+
+// c02NilSafeMethod: every use of the pointer receiver inside g that dereferences it lies under a nil test of the receiver.
+func c02NilSafeMethod(g *ssa.Function) bool {
+	if g == nil || g.Blocks == nil || len(g.Params) == 0 || g.Signature.Recv() == nil {
+		return false
+	}
+	recv := g.Params[0]
+	if _, isPtr := recv.Type().Underlying().(*types.Pointer); !isPtr {
+		return false
+	}
+	safe := true
+	core.EachInstr(g, false, func(_ *ssa.Function, in ssa.Instruction) {
+		deref := false
+		switch x := in.(type) {
+		case *ssa.FieldAddr:
+			deref = x.X == ssa.Value(recv)
+		case *ssa.UnOp:
+			deref = x.X == ssa.Value(recv)
+		case ssa.CallInstruction:
+			com := x.Common()
+			if !com.IsInvoke() && len(com.Args) > 0 && com.Args[0] == ssa.Value(recv) {
+				if h := com.StaticCallee(); h != nil && h != g && !c02NilSafeMethod(h) {
+					deref = true
+				}
+			}
+		}
+		if deref && xNilGuard(in.Block(), recv) == "" {
+			safe = false
+		}
+	})
+	return safe
 }
